@@ -37,7 +37,7 @@ BASE = {
     "NKeys": "2", "Paths": "<-McPaths", "Par": "<-McPar", "PathSeq": "<-McPathSeq", "BNodes": "<-McBNodes",
     "OpAlpha": '{"s1","s2","d"}', "MaxOps": "2", "Tree": '"flat"', "MaxBatches": "3", "MaxPre": "2",
     "HasLL": "TRUE", "LLInit": "TRUE", "CachePersisted": "FALSE", "MaxSnaps": "0", "MaxErrs": "0",
-    "MaxReopens": "0", "MaxPokes": "1", "Devs": "{}", "SimLen": "14",
+    "MaxReopens": "0", "MaxPokes": "1", "Devs": "{}", "SimLen": "14", "InitKeys": "{}",
 }
 
 PATHS = {"flat": [""], "a": ["", "a"], "ab": ["", "a", "b"], "aa": ["", "a", "a/a"], "aab": ["", "a", "a/a", "b"]}
@@ -104,10 +104,12 @@ def plan(prop, tier):
                     ("c02_walk_kids", C(Tree='"a"', NKeys=1, OpAlpha='{"s1","s2","d"}', MaxOps=1, MaxBatches=6, MaxPokes=2, SimLen=20, MaxSnaps=2, MaxReopens=1), 60 if q else 400),
                     ("c02_walk_mem", C(MaxBatches=6, MaxPokes=2, SimLen=16, MaxSnaps=2, HasLL="FALSE", LLInit="FALSE"), 30 if q else 200)]
         P["edges"] = []
-        P["dims"] = {"c02_walk": [dims("store", compaction="force"), dims("store", compaction="allow", levelMaxSegs=1, levelMult=2), dims("store", cachePersisted=False, deferredSort=True), dims("app")],
+        P["sim"].append(("c02_walk_pre", C(MaxBatches=5, MaxPokes=2, SimLen=18, MaxSnaps=1, MaxReopens=1, InitKeys="{1}"), 60 if q else 400))
+        P["dims"] = {"c02_walk_pre": [dims("store", preload=[1]), dims("store", preload=[1], compaction="force")],
+                     "c02_walk": [dims("store", compaction="force"), dims("store", compaction="allow", levelMaxSegs=1, levelMult=2), dims("store", cachePersisted=False, deferredSort=True), dims("app")],
                      "c02_walk_kids": [dims("store", "a", 1, compaction="force"), dims("store", "a", 1)],
                      "c02_walk_mem": [dims("mem")]}
-        P["relevant"] = r"^heldsnap"
+        P["relevant"] = r"^heldsnap|^heldstore"
         P["rule"] = ("behaviours with TakeSnapshot at arbitrary states followed by batches / merger / persister / forced compaction (data file of the snapshot unlinked) / Close / reopen; "
                      "every open snapshot (and its child snapshots) is fully re-read after every later step; non-trivial = two or more sections non-empty at some observation")
     elif prop == "C04":
